@@ -7,10 +7,10 @@ V = "/verif"
 props = [json.loads(l) for l in open(os.path.join(V, "properties.jsonl"))]
 
 CLAIMS = {
-    "C01": dict(level="proof", design="§5 C01, §4.3-4.6",
-                text="Abstract interpretation (intervals x known-bits x symbolic lengths x ADT variants) of the dev-profile MIR of every decoder entry point and its call-graph closure: every MIR Assert (bounds/overflow/div), every panicking std call (unwrap, index, copy_from_slice, ...) and every loop is an obligation that must be discharged for ALL inputs; an undischarged obligation is a violation naming the site.",
-                note="Trusted: rustc MIR construction, the audited std-summary table, crc32c/winnow contracts. Decides panic/overflow/termination freedom; says nothing about which inputs are accepted (C02-C07).",
-                technique="abstract interpretation of MIR (intervals, known-bits, symbolic length facts) with panic-site obligations"),
+    "C01": dict(level="proof", design="§0.1, §5 C01",
+                text="Panic-obligation analysis of the dev-profile MIR of every body of the detector crate except derive/fmt impls and lazy_static initialisers (decoders, id conversions, bank-name parsers, map lookups, accessors, closures; inputs unconstrained): every MIR Assert (bounds/overflow/div), every std call with a documented panic condition (unwrap, index, copy_from_slice, split_at, from_str_radix, sum, with_capacity, operator traits, ...), every explicit panic and every loop is an obligation that must be discharged for ALL inputs from dominating guard atoms (or on every acyclic path), symbol ranges, constructor-census type invariants and exact linear arithmetic; an undischarged obligation or an unmodelled external callee is a violation naming the site. The thorough tier also runs 107 engine controls (functions with a known verdict).",
+                note="Trusted: rustc MIR construction, the documented panic conditions / audited-total list of std callees, crc32c and winnow contracts, five audited implications whose premises are re-checked on every run (DESIGN §0.1). Decides panic/overflow/termination freedom; says nothing about which inputs are accepted (C02-C07). lazy_static initialisers are census only.",
+                technique="static analysis: panic-site obligations over MIR discharged by guard atoms, reaching-definition value naming, interval + Fourier-Motzkin arithmetic and constructor-census type invariants"),
     "C02": dict(level="other", design="§5 C02",
                 text="Accept-path description of AdcV3Packet::try_from extracted from MIR (guard atoms on the Ok paths, provenance of every stored field as (offset,width,endianness,sign)) compared with the documented byte table and the property's decision table; accessor pass-through and wrapper forwarding by all-returns analysis.",
                 note="Decides layout/guard structure (necessary conditions of exact decoding); arithmetic equivalence of the floor-mean is checked on term shape.",
